@@ -48,204 +48,207 @@ func renameCols(t *rapid.T, tab hx.Table, pool []string) hx.Table {
 	return tab
 }
 
-func TestC13(t *testing.T) {
-	rapid.Check(t, func(t *rapid.T) {
-		base := noCR(hx.GenTable(t, hx.TableOpt{MinCols: 1, MaxCols: 5, AllowDerived: true, Wide: true}))
-		if rapid.Bool().Draw(t, "hostilenames") {
-			base = renameCols(t, base, hostileLegalNames)
+func TestC13(t *testing.T) { rapid.Check(t, propC13) }
+
+// FuzzC13: the same property driven by coverage-guided bytes (thorough tier).
+func FuzzC13(f *testing.F) { f.Fuzz(rapid.MakeFuzz(propC13)) }
+
+func propC13(t *rapid.T) {
+	base := noCR(hx.GenTable(t, hx.TableOpt{MinCols: 1, MaxCols: 5, AllowDerived: true, Wide: true}))
+	if rapid.Bool().Draw(t, "hostilenames") {
+		base = renameCols(t, base, hostileLegalNames)
+	}
+	steps := 4
+	if hx.Rarely(t, 150, "fullenum") {
+		// an enum column that uses the full range: 255 (or 254) distinct values, declared or derived, no nulls
+		nv := rapid.SampledFrom([]int{255, 255, 254}).Draw(t, "fullenumvalues")
+		n := nv + rapid.IntRange(0, 40).Draw(t, "fullenumextra")
+		rng := hx.SplitMix(rapid.Uint64().Draw(t, "fullenumseed"))
+		vals := make([]string, nv)
+		for i := range vals {
+			vals[i] = fmt.Sprintf("v%03d", (i*101)%nv)
 		}
-		steps := 4
-		if hx.Rarely(t, 150, "fullenum") {
-			// an enum column that uses the full range: 255 (or 254) distinct values, declared or derived, no nulls
-			nv := rapid.SampledFrom([]int{255, 255, 254}).Draw(t, "fullenumvalues")
-			n := nv + rapid.IntRange(0, 40).Draw(t, "fullenumextra")
-			rng := hx.SplitMix(rapid.Uint64().Draw(t, "fullenumseed"))
-			vals := make([]string, nv)
-			for i := range vals {
-				vals[i] = fmt.Sprintf("v%03d", (i*101)%nv)
+		e := hx.Col{Name: "efull", Kind: hx.KEnum, S: make([]*string, n)}
+		for r := range e.S {
+			k := r
+			if r >= nv {
+				k = rng.Intn(nv)
 			}
-			e := hx.Col{Name: "efull", Kind: hx.KEnum, S: make([]*string, n)}
-			for r := range e.S {
-				k := r
-				if r >= nv {
-					k = rng.Intn(nv)
+			e.S[r] = hx.Sp(vals[k])
+		}
+		if rapid.Bool().Draw(t, "fullenumdeclared") {
+			e.Enum = vals
+		}
+		base, steps = hx.Table{Cols: []hx.Col{e, {Name: "k", Kind: hx.KInt, I: hx.Iota(n)}}}, 2
+	}
+	d := hx.GenDerived(t, base, steps)
+	in := d.Input(t)
+	// now and then the frame has an earlier life that touched its data columns (no cell text it did not hold before; observed afterwards)
+	if steps > 2 && len(in.Cols) > 0 && rapid.IntRange(0, 5).Draw(t, "history") == 0 {
+		var hist hx.History
+		d.QF, in, hist = hx.GenHistory(t, d.QF, in, true)
+		d.Route = append(d.Route, hist.String())
+	}
+	// now and then the frame written is itself the result of reading a CSV text (fields quoted only where needed - often
+	// nowhere), possibly reordered afterwards
+	reread := false
+	if steps > 2 && len(in.Cols) > 0 && rapid.IntRange(0, 4).Draw(t, "rereadfirst") == 0 {
+		if qf2, ok := hx.FromCSV(in, true); ok {
+			d.QF, reread = qf2, true
+			d.Route = append(d.Route, "re-read from a CSV text with minimal quoting")
+			if rapid.Bool().Draw(t, "rereadsort") {
+				d.QF = d.QF.Sort(qframe.Order{Column: in.Cols[0].Name, Reverse: true})
+				d.Route = append(d.Route, "sorted")
+				in = d.Input(t)
+			}
+		}
+	}
+	// now and then a numeric column under a name that needs quoting joins the frame right before it is written (by Copy
+	// or as a constant): what a frame remembers of the text it was read from says nothing about such a column
+	if steps > 2 && len(in.Cols) > 0 && (reread || rapid.IntRange(0, 4).Draw(t, "latecolumn") == 0) {
+		name := rapid.SampledFrom([]string{"x,y", "q\"q", "l\nf", " lead", "late", "a,\"b\"\n"}).Draw(t, "latename")
+		if in.Find(name) < 0 {
+			var nums []string
+			for _, c := range in.Cols {
+				if c.Kind == hx.KInt || c.Kind == hx.KFloat || c.Kind == hx.KBool {
+					nums = append(nums, c.Name)
 				}
-				e.S[r] = hx.Sp(vals[k])
 			}
-			if rapid.Bool().Draw(t, "fullenumdeclared") {
-				e.Enum = vals
+			var added qframe.QFrame
+			if len(nums) > 0 && rapid.Bool().Draw(t, "latecopy") {
+				added = d.QF.Copy(name, nums[rapid.IntRange(0, len(nums)-1).Draw(t, "latesrc")])
+			} else {
+				added = d.QF.Apply(qframe.Instruction{Fn: 7, DstCol: name})
 			}
-			base, steps = hx.Table{Cols: []hx.Col{e, {Name: "k", Kind: hx.KInt, I: hx.Iota(n)}}}, 2
+			if added.Err == nil {
+				d.QF = added
+				d.Route = append(d.Route, fmt.Sprintf("numeric column %q added", name))
+				in = d.Input(t)
+			}
 		}
-		d := hx.GenDerived(t, base, steps)
-		in := d.Input(t)
-		// now and then the frame has an earlier life that touched its data columns (no cell text it did not hold before; observed afterwards)
-		if steps > 2 && len(in.Cols) > 0 && rapid.IntRange(0, 5).Draw(t, "history") == 0 {
-			var hist hx.History
-			d.QF, in, hist = hx.GenHistory(t, d.QF, in, true)
-			d.Route = append(d.Route, hist.String())
-		}
-		// now and then the frame written is itself the result of reading a CSV text (fields quoted only where needed - often
-		// nowhere), possibly reordered afterwards
-		reread := false
-		if steps > 2 && len(in.Cols) > 0 && rapid.IntRange(0, 4).Draw(t, "rereadfirst") == 0 {
-			if qf2, ok := hx.FromCSV(in, true); ok {
-				d.QF, reread = qf2, true
-				d.Route = append(d.Route, "re-read from a CSV text with minimal quoting")
-				if rapid.Bool().Draw(t, "rereadsort") {
-					d.QF = d.QF.Sort(qframe.Order{Column: in.Cols[0].Name, Reverse: true})
-					d.Route = append(d.Route, "sorted")
-					in = d.Input(t)
+	}
+	header := rapid.IntRange(0, 3).Draw(t, "header") > 0
+	order := in.Names()
+	explicitOrder := rapid.Bool().Draw(t, "columnsopt")
+	if explicitOrder {
+		order = rapid.Permutation(order).Draw(t, "order")
+	}
+	emptyNull := rapid.Bool().Draw(t, "emptynull")
+	desc := func() string {
+		return d.String() + fmt.Sprintf("names %q header=%v columns=%q(explicit=%v) emptyNull=%v", in.Names(), header, order, explicitOrder, emptyNull)
+	}
+	var buf bytes.Buffer
+	var wfns []csv.ToConfigFunc
+	if !header {
+		wfns = append(wfns, csv.Header(false))
+	}
+	if explicitOrder {
+		wfns = append(wfns, csv.Columns(append([]string(nil), order...)))
+	}
+	var werr error
+	if rapid.IntRange(0, 3).Draw(t, "secondcall") == 0 {
+		// the same writer options served an earlier ToCSV of the same frame: the second output counts
+		_ = hx.Safely(func() { _ = d.QF.ToCSV(&bytes.Buffer{}, wfns...) })
+	}
+	if perr := hx.Safely(func() { werr = d.QF.ToCSV(&buf, wfns...) }); perr != nil {
+		t.Fatalf("ToCSV panicked: %v\n%s", perr, desc())
+	}
+	if werr != nil {
+		t.Fatalf("ToCSV error: %v\n%s", werr, desc())
+	}
+	// read back with the frame's types declared
+	typs := map[string]string{}
+	enumVals := map[string][]string{}
+	for _, c := range in.Cols {
+		typs[c.Name] = c.Kind.String()
+		if c.Kind == hx.KEnum && c.Enum != nil {
+			vals := append([]string(nil), c.Enum...)
+			hasEmpty := false
+			for _, v := range vals {
+				if v == "" {
+					hasEmpty = true
 				}
 			}
+			if !emptyNull && !hasEmpty && c.HasNull() {
+				vals = append(vals, "") // null strings return as empty strings
+			}
+			enumVals[c.Name] = vals
 		}
-		// now and then a numeric column under a name that needs quoting joins the frame right before it is written (by Copy
-		// or as a constant): what a frame remembers of the text it was read from says nothing about such a column
-		if steps > 2 && len(in.Cols) > 0 && (reread || rapid.IntRange(0, 4).Draw(t, "latecolumn") == 0) {
-			name := rapid.SampledFrom([]string{"x,y", "q\"q", "l\nf", " lead", "late", "a,\"b\"\n"}).Draw(t, "latename")
-			if in.Find(name) < 0 {
-				var nums []string
-				for _, c := range in.Cols {
-					if c.Kind == hx.KInt || c.Kind == hx.KFloat || c.Kind == hx.KBool {
-						nums = append(nums, c.Name)
+	}
+	rfns := []csv.ConfigFunc{csv.Types(typs), csv.EmptyNull(emptyNull)}
+	if len(enumVals) > 0 {
+		rfns = append(rfns, csv.EnumValues(enumVals))
+	}
+	if !header {
+		rfns = append(rfns, csv.Headers(append([]string(nil), order...)))
+	}
+	out := buf.Bytes()
+	var back qframe.QFrame
+	if rapid.IntRange(0, 3).Draw(t, "secondread") == 0 {
+		_ = hx.Safely(func() { _ = qframe.ReadCSV(bytes.NewReader(out), rfns...) }) // same reader options, second read counts
+	}
+	if perr := hx.Safely(func() { back = qframe.ReadCSV(bytes.NewReader(out), rfns...) }); perr != nil {
+		t.Fatalf("ReadCSV panicked: %v\ncsv %q\n%s", perr, clipS(string(out)), desc())
+	}
+	if back.Err != nil {
+		t.Fatalf("reading back failed: %v\ncsv %q\n%s", back.Err, clipS(string(out)), desc())
+	}
+	// expectation: written order, null <-> "" as stated
+	want := in.Project(order)
+	for ci, c := range want.Cols {
+		if c.Kind != hx.KString && c.Kind != hx.KEnum {
+			continue
+		}
+		s := make([]*string, len(c.S))
+		for i, p := range c.S {
+			switch {
+			case emptyNull && (p == nil || *p == ""):
+				s[i] = nil
+			case p == nil:
+				s[i] = hx.Sp("")
+			default:
+				s[i] = p
+			}
+		}
+		want.Cols[ci].S = s
+	}
+	got, err := hx.Observe(back)
+	if err != nil {
+		t.Fatalf("observe: %v\n%s", err, desc())
+	}
+	if in.N() > 0 || header {
+		if back.Len() != in.N() {
+			t.Fatalf("read back %d rows, frame has %d\ncsv %q\n%s", back.Len(), in.N(), clipS(string(out)), desc())
+		}
+	}
+	if diff := hx.Diff(want, got); diff != "" {
+		t.Fatalf("round trip differs: %s\ncsv %q\n%s", diff, clipS(string(out)), desc())
+	}
+	quoting, digits := false, false
+	for _, c := range in.Cols {
+		for r := 0; r < c.Len(); r++ {
+			switch c.Kind {
+			case hx.KString, hx.KEnum:
+				if c.S[r] != nil && (strings.ContainsAny(*c.S[r], ",\"\n") || strings.HasPrefix(*c.S[r], " ")) {
+					quoting = true
+				}
+			case hx.KFloat:
+				f := c.F[r]
+				if !math.IsNaN(f) && !math.IsInf(f, 0) {
+					m := math.Float64bits(f) & ((1 << 52) - 1)
+					if m&0xffff != 0 {
+						digits = true
 					}
 				}
-				var added qframe.QFrame
-				if len(nums) > 0 && rapid.Bool().Draw(t, "latecopy") {
-					added = d.QF.Copy(name, nums[rapid.IntRange(0, len(nums)-1).Draw(t, "latesrc")])
-				} else {
-					added = d.QF.Apply(qframe.Instruction{Fn: 7, DstCol: name})
-				}
-				if added.Err == nil {
-					d.QF = added
-					d.Route = append(d.Route, fmt.Sprintf("numeric column %q added", name))
-					in = d.Input(t)
-				}
 			}
 		}
-		header := rapid.IntRange(0, 3).Draw(t, "header") > 0
-		order := in.Names()
-		explicitOrder := rapid.Bool().Draw(t, "columnsopt")
-		if explicitOrder {
-			order = rapid.Permutation(order).Draw(t, "order")
-		}
-		emptyNull := rapid.Bool().Draw(t, "emptynull")
-		desc := func() string {
-			return d.String() + fmt.Sprintf("names %q header=%v columns=%q(explicit=%v) emptyNull=%v", in.Names(), header, order, explicitOrder, emptyNull)
-		}
-		var buf bytes.Buffer
-		var wfns []csv.ToConfigFunc
-		if !header {
-			wfns = append(wfns, csv.Header(false))
-		}
-		if explicitOrder {
-			wfns = append(wfns, csv.Columns(append([]string(nil), order...)))
-		}
-		var werr error
-		if rapid.IntRange(0, 3).Draw(t, "secondcall") == 0 {
-			// the same writer options served an earlier ToCSV of the same frame: the second output counts
-			_ = hx.Safely(func() { _ = d.QF.ToCSV(&bytes.Buffer{}, wfns...) })
-		}
-		if perr := hx.Safely(func() { werr = d.QF.ToCSV(&buf, wfns...) }); perr != nil {
-			t.Fatalf("ToCSV panicked: %v\n%s", perr, desc())
-		}
-		if werr != nil {
-			t.Fatalf("ToCSV error: %v\n%s", werr, desc())
-		}
-		// read back with the frame's types declared
-		typs := map[string]string{}
-		enumVals := map[string][]string{}
-		for _, c := range in.Cols {
-			typs[c.Name] = c.Kind.String()
-			if c.Kind == hx.KEnum && c.Enum != nil {
-				vals := append([]string(nil), c.Enum...)
-				hasEmpty := false
-				for _, v := range vals {
-					if v == "" {
-						hasEmpty = true
-					}
-				}
-				if !emptyNull && !hasEmpty && c.HasNull() {
-					vals = append(vals, "") // null strings return as empty strings
-				}
-				enumVals[c.Name] = vals
-			}
-		}
-		rfns := []csv.ConfigFunc{csv.Types(typs), csv.EmptyNull(emptyNull)}
-		if len(enumVals) > 0 {
-			rfns = append(rfns, csv.EnumValues(enumVals))
-		}
-		if !header {
-			rfns = append(rfns, csv.Headers(append([]string(nil), order...)))
-		}
-		out := buf.Bytes()
-		var back qframe.QFrame
-		if rapid.IntRange(0, 3).Draw(t, "secondread") == 0 {
-			_ = hx.Safely(func() { _ = qframe.ReadCSV(bytes.NewReader(out), rfns...) }) // same reader options, second read counts
-		}
-		if perr := hx.Safely(func() { back = qframe.ReadCSV(bytes.NewReader(out), rfns...) }); perr != nil {
-			t.Fatalf("ReadCSV panicked: %v\ncsv %q\n%s", perr, clipS(string(out)), desc())
-		}
-		if back.Err != nil {
-			t.Fatalf("reading back failed: %v\ncsv %q\n%s", back.Err, clipS(string(out)), desc())
-		}
-		// expectation: written order, null <-> "" as stated
-		want := in.Project(order)
-		for ci, c := range want.Cols {
-			if c.Kind != hx.KString && c.Kind != hx.KEnum {
-				continue
-			}
-			s := make([]*string, len(c.S))
-			for i, p := range c.S {
-				switch {
-				case emptyNull && (p == nil || *p == ""):
-					s[i] = nil
-				case p == nil:
-					s[i] = hx.Sp("")
-				default:
-					s[i] = p
-				}
-			}
-			want.Cols[ci].S = s
-		}
-		got, err := hx.Observe(back)
-		if err != nil {
-			t.Fatalf("observe: %v\n%s", err, desc())
-		}
-		if in.N() > 0 || header {
-			if back.Len() != in.N() {
-				t.Fatalf("read back %d rows, frame has %d\ncsv %q\n%s", back.Len(), in.N(), clipS(string(out)), desc())
-			}
-		}
-		if diff := hx.Diff(want, got); diff != "" {
-			t.Fatalf("round trip differs: %s\ncsv %q\n%s", diff, clipS(string(out)), desc())
-		}
-		quoting, digits := false, false
-		for _, c := range in.Cols {
-			for r := 0; r < c.Len(); r++ {
-				switch c.Kind {
-				case hx.KString, hx.KEnum:
-					if c.S[r] != nil && (strings.ContainsAny(*c.S[r], ",\"\n") || strings.HasPrefix(*c.S[r], " ")) {
-						quoting = true
-					}
-				case hx.KFloat:
-					f := c.F[r]
-					if !math.IsNaN(f) && !math.IsInf(f, 0) {
-						m := math.Float64bits(f) & ((1 << 52) - 1)
-						if m&0xffff != 0 {
-							digits = true
-						}
-					}
-				}
-			}
-		}
-		classes := []string{fmt.Sprintf("header=%v", header), fmt.Sprintf("columns-option=%v", explicitOrder), fmt.Sprintf("emptyNull=%v", emptyNull)}
-		if quoting {
-			classes = append(classes, "cell-forces-quoting")
-		}
-		if digits {
-			classes = append(classes, "float-many-digits")
-		}
-		evC13.Case(in.N() >= 2 && d.NonIdentity() && (quoting || digits), desc, classes...)
-	})
+	}
+	classes := []string{fmt.Sprintf("header=%v", header), fmt.Sprintf("columns-option=%v", explicitOrder), fmt.Sprintf("emptyNull=%v", emptyNull)}
+	if quoting {
+		classes = append(classes, "cell-forces-quoting")
+	}
+	if digits {
+		classes = append(classes, "float-many-digits")
+	}
+	evC13.Case(in.N() >= 2 && d.NonIdentity() && (quoting || digits), desc, classes...)
 }
